@@ -1,10 +1,44 @@
 (** C17 - schema trees map to the right leaf columns and def/rep levels.
-    This file only restates lemmas proved in Schema/SchemaProofs.v (specification: Schema/SchemaTree.v;
-    models: Schema/SchemaModel.v mirroring src/reader/file_reader.c + the queries of src/metadata/schema.c,
-    Schema/SchemaBuilderModel.v mirroring the builder of src/metadata/schema.c). *)
+    This file only restates lemmas proved in Schema/SchemaProofs.v.
+      specification: Schema/SchemaTree.v   (trees, flattening, textbook columns and levels; imports no model)
+      models:        Schema/SchemaModel.v  (count_leaves, traverse_schema_recursive, compute_levels, build_schema of
+                                            src/reader/file_reader.c; find_column, get_element and the node accessors of
+                                            src/metadata/schema.c), Schema/SchemaBuilderModel.v (schema_create,
+                                            ensure_capacity, add_column, add_group)
+    [valid_schema children]: the root has at least one child, no group is empty (an element without children is a
+    primitive field in Parquet) and the element count is within CARQUET_MAX_SCHEMA_ELEMENTS, which the parser enforces
+    (this also keeps every level inside int16_t). *)
 From Coq Require Import ZArith NArith List.
 From Carquet Require Import Schema.SchemaTree Schema.SchemaModel Schema.SchemaBuilderModel Schema.SchemaProofs.
 Import ListNotations.
+
+(** For every schema tree, stored as the depth-first element list with child counts, the reader's schema has exactly
+    the leaves in depth-first order as columns; each column's maximum definition level is the number of non-REQUIRED
+    nodes and its maximum repetition level the number of REPEATED nodes on its path; name, physical type, type length,
+    logical type and repetition read through the accessors are what the file states; the per-node level accessors
+    agree; lookup by name returns the first column of that name. *)
+Theorem levels_correct : forall rr nm children, valid_schema children ->
+  exists s, build_schema (schema_of rr nm children) = Ok s /\
+            s_leaves s = map (fun c => (c_elem c, c_def c, c_rep c)) (columns children) /\
+            reader_columns s = Ok (columns children) /\
+            accessor_levels s = map (fun c => Some (c_def c, c_rep c)) (columns children) /\
+            (forall name, find_column s name = Ok (find_name name 0%Z (columns children))) /\
+            num_columns s = Z.of_nat (length (columns children)).
+Proof. exact levels_correct_full. Qed.
+Print Assumptions levels_correct.
+
+(** Every element (groups included) is returned by get_element with the stored fields and the textbook levels of
+    that node; indices outside [0, num_elements) give NULL. *)
+Theorem element_accessors : forall rr nm children, valid_schema children ->
+  exists s, build_schema (schema_of rr nm children) = Ok s /\
+    num_elements s = Z.of_nat (length (schema_of rr nm children)) /\
+    get_element s (-1)%Z = None /\ get_element s (num_elements s) = None /\
+    forall k, k < length (schema_of rr nm children) ->
+      exists e lv, get_element s (Z.of_nat k) = Some (e, lv) /\
+                   nth_error (schema_of rr nm children) k = Some e /\
+                   nth_error ((0%Z, 0%Z) :: flat_map (node_levels 0 0) children) k = Some lv.
+Proof. exact element_accessors_correct. Qed.
+Print Assumptions element_accessors.
 
 (** For EVERY element list the parser can deliver (not only flattenings of trees): the per-leaf arrays sized
     by count_leaves are never overrun, no element is read outside the list, the recursion depth stays within
@@ -14,7 +48,8 @@ Theorem leaf_idx_bounded : forall elems, length elems <= MAX_ELEMS ->
 Proof. exact leaf_idx_bounded_thm. Qed.
 Print Assumptions leaf_idx_bounded.
 
-(** For every element list: at most one call of traverse_schema_recursive per element. *)
+(** For every element list: at most one call of traverse_schema_recursive per element
+    (holds for the repaired loops of /repo commit eab7c31; before it, a 40-byte footer took hours). *)
 Theorem traverse_linear : forall elems s, length elems <= MAX_ELEMS ->
   build_schema elems = Ok s -> s_calls s <= 1 * length elems /\ fuel_of elems = 2 * length elems + 3.
 Proof. exact traverse_linear_thm. Qed.
@@ -25,3 +60,16 @@ Theorem find_column_in_bounds : forall elems s name, length elems <= MAX_ELEMS -
   exists j, find_column s name = Ok j /\ (-1 <= j < num_columns s)%Z.
 Proof. exact find_column_safe. Qed.
 Print Assumptions find_column_in_bounds.
+
+(** Builder: for ANY list of carquet_schema_add_column calls (any length: the arrays grow past the initial capacity)
+    every call returns CARQUET_OK, no store leaves the allocations, and the schema has exactly the element list, leaf
+    arrays and node levels of the flat tree with those columns - hence (levels_correct) the same counts, names, types
+    and levels a reader reports for it. *)
+Theorem builder_flat_correct : forall cols : list colspec,
+  exists b, run_ops schema_create (map op_of cols) [] = Ok (b, repeat 0%Z (length cols)) /\
+            b_elems b = s_elems (tree_schema None ROOT_NAME (map leaf_of cols)) /\
+            b_leaves b = s_leaves (tree_schema None ROOT_NAME (map leaf_of cols)) /\
+            b_nodes b = s_nodes (tree_schema None ROOT_NAME (map leaf_of cols)) /\
+            (Z.of_nat (length (b_elems b)) <= b_capacity b)%Z.
+Proof. exact builder_flat_correct_thm. Qed.
+Print Assumptions builder_flat_correct.
